@@ -73,8 +73,7 @@ def run(prop: str, tier: str, mod, seed: int) -> dict:
         try:
             repo = model.Repo(model.REPO_ROOT, overrides=overrides, share=base_repo)
             ctx = report.Ctx(prop, tier, seed, repo)
-            mod.run(ctx)
-            refmodels.check(ctx)
+            report.run_rules(ctx, mod)
             failing = [o for o in ctx.obligations if not o["ok"] and not any(report.matches(e, o) for e in known)]
             err = None
         except AnalysisError as exc:
